@@ -52,6 +52,7 @@ class State:
         self.value_of = {}  # id(program) -> components, to attribute a registration to its script entry
         self.evaluated = []  # aggregate of every fitness invocation, in order
         self.presented = 0  # individuals handed to tracker.evaluate
+        self.shadow = False  # True while ANOTHER problem over the same fitness function evaluates (history; not part of the script)
         # drivers in which every individual is registered right after its own evaluation (no evaluation ahead of the tracker)
         self.sync = cfg["driver"] in ("rs", "hc", "opo", "gp") or (cfg["driver"] == "direct" and not any(cfg["pre_evaluate"]))
 
@@ -137,7 +138,9 @@ def gen(H, tier):
             "driver": H.weighted([("direct", 4), ("rs", 2), ("hc", 2), ("opo", 2), ("gp", 3), ("gp_eval", 2)]),
             "pre_evaluate": [bool(H.draw(4) == 3) for _ in range(12)],
             "pop": 2 + H.draw(7), "hc_n": 1 + H.draw(5), "budget": 1 + H.draw(min(n, 40)),
-            "batches": [1 + H.draw(5) for _ in range(8)]}
+            "batches": [1 + H.draw(5) for _ in range(8)],
+            "other_problem": bool(H.draw(3) == 2),
+            "resume": H.pick([None, None, None, "again", "rs", "hc", "opo", "gp"]), "resume_extra": H.draw(12)}
 
 
 def run(ctx):
@@ -157,12 +160,16 @@ def run(ctx):
     rnd = SimRandom(ctx, ctx.H.pick(["uniform", "edge", "native"]))
 
     def ff_single(p):
+        if st.shadow:
+            return st.script(p.v * 7 + 3)[0]
         v = st.script(st.count)[0]
         st.count += 1
         st.evaluated.append(st.agg([v]))
         return v
 
     def ff_multi(p):
+        if st.shadow:
+            return list(st.script(p.v * 7 + 3))
         v = list(st.script(st.count))
         st.count += 1
         st.evaluated.append(st.agg(v))
@@ -174,6 +181,14 @@ def run(ctx):
     else:
         problem = SingleObjectiveProblem(ff_single, minimize=cfg["minimize"][0])
         tracker = SingleObjectiveProgressTracker(problem, SequentialEvaluator(), recorders=[Probe(st)])
+    # F13 (history): another, still-alive problem over the SAME fitness function with the opposite direction(s) has evaluated
+    # the same Individual objects before the tracker sees them
+    other = None
+    if cfg["other_problem"]:
+        if cfg["multi"]:
+            other = MultiObjectiveProblem([not m for m in cfg["minimize"]], ff_multi, aggregate_fitness=(lambda comps: -st.agg(comps)))
+        else:
+            other = SingleObjectiveProblem(ff_single, minimize=not cfg["minimize"][0])
     driver = cfg["driver"]
     ctx.sample = {k: v for k, v in cfg.items() if k != "history"}
     ctx.sample["history"] = cfg["history"][:12]
@@ -192,6 +207,13 @@ def run(ctx):
                     # user code that evaluates (part of) a batch itself before handing it to the tracker (F12)
                     tracker.evaluator.evaluate(problem, group[: 1 + len(group) // 2])
                     ctx.faults["represent"] += 1
+                if other is not None and bi % 2:
+                    st.shadow = True
+                    try:
+                        SequentialEvaluator().evaluate(other, group)
+                    finally:
+                        st.shadow = False
+                    ctx.faults["carry_over"] += 1
                 st.presented += len(group)
                 tracker.evaluate(group)
         else:
@@ -214,6 +236,19 @@ def run(ctx):
                 kw["population_size"] = cfg["pop"]
             a = algo(problem=problem, budget=EvaluationBudget(cfg["budget"]), representation=rep, random=rnd, tracker=tracker, **kw)
             result = a.search()
+            # F13 (history): the tracker goes on to serve a second search (search() again on the same object, or another
+            # algorithm resumed on the same tracker with a larger budget); what that search returns is judged like the first
+            resume = cfg["resume"]
+            if resume == "again":
+                ctx.faults["carry_over"] += 1
+                result = a.search()
+            elif resume is not None and driver != "gp_eval":
+                ctx.faults["carry_over"] += 1
+                algo2 = {"rs": RandomSearch, "hc": HC, "opo": OnePlusOne, "gp": GeneticProgramming}[resume]
+                kw2 = {"number_of_mutations": cfg["hc_n"]} if resume == "hc" else ({"population_size": cfg["pop"]} if resume == "gp" else {})
+                a2 = algo2(problem=problem, budget=EvaluationBudget(cfg["budget"] + cfg["resume_extra"]), representation=rep, random=rnd, tracker=tracker, **kw2)
+                result = a2.search()
+                driver = f"{resume}-resumed-after-{driver}"
     except Exception as e:
         from ..world import short_tb
 
